@@ -77,6 +77,13 @@ def _prefix_props(full, part, err):
     st = LAST_STREAM[0]
     declared = [r['options'].get('length') for r in part if 'length' in r['options']]
     short = any(req in declared and req != 96 for req, got in st.short_reads)
+    if short and part:
+        # the recorded known finding is: the short content still ends with a newline, so the
+        # trailing-newline check cannot see the damage.  Anything else is a different defect.
+        last = part[-1]
+        c = last.get('text', last.get('diff'))
+        if c is not None and len(c) and not bool(lift(c).endswith('\n' if lift(c).kind is str else b'\n')):
+            short = False
     for a, b in zip(part, full):
         # (a yielded section whose content read came back short is the recorded known finding;
         # anything else that alters a section is labelled separately so that it is replayed on its own)
@@ -223,5 +230,7 @@ def replay(ob, label, w):
     # classify: a section was yielded although the stream returned fewer bytes than its declared length
     declared = [r['options'].get('length') for r in part if 'length' in r['options']]
     short_content = [s for s in st.short if s[0] in declared and s[0] != 96]
-    sig = 'short-read-accepted' if short_content else 'framing:altered-section'
+    lastc = part[-1].get('text', part[-1].get('diff')) if part else None
+    ends_nl = lastc is not None and len(lastc) > 0 and lastc.endswith('\n' if isinstance(lastc, str) else b'\n')
+    sig = 'short-read-accepted' if (short_content and ends_nl) else 'framing:altered-section'
     return {'violated': True, 'signature': sig, 'detail': '%s; input %r; short reads %r' % (bad, G, st.short)}
